@@ -170,3 +170,144 @@ func Run(j *job.Job, s *job.Sink) {
 		}()
 	}
 }
+
+// Unions is the third family of C09: unions whose members are typedefs of one base type that
+// differ only in what their derivation chains say (units, default), written in a leaf and
+// behind a typedef; every member written is a member of the resolved type, in written order,
+// with its own units and default. One case in three also has a typedef that nothing uses and
+// whose type does not exist - current, deprecated or obsolete, at the top, in a container or in
+// the input of an rpc: it is reported all the same.
+func Unions(j *job.Job, s *job.Sink) {
+	for c := j.Start; c < j.Start+j.Count; c++ {
+		r := prng.For(j.Seed, "C09", "unions", c)
+		base := []string{"uint32", "string", "boolean", "int8"}[r.Intn(4)]
+		k := 2 + r.Intn(3)
+		defs := map[string][]string{"uint32": {"1", "2", "3", "4"}, "string": {"a", "b", "c", "d"}, "boolean": {"true", "false", "true", "false"}, "int8": {"-1", "0", "1", "2"}}[base]
+		var b strings.Builder
+		b.WriteString("module zu {\n  namespace \"urn:zu\";\n  prefix zu;\n")
+		type mem struct{ name, units, def string }
+		var ms []mem
+		for i := 0; i < k; i++ {
+			m := mem{name: fmt.Sprintf("m%d", i)}
+			switch r.Intn(3) {
+			case 0:
+				m.units = fmt.Sprintf("u%d", i)
+			case 1:
+				m.def = defs[i]
+				if base == "boolean" && i >= 2 {
+					m.units = fmt.Sprintf("u%d", i) // (true/false repeat: tell these apart by units)
+				}
+			default:
+				m.units, m.def = fmt.Sprintf("u%d", i), defs[i]
+			}
+			ms = append(ms, m)
+		}
+		// no two members may be equal in everything (equal member types count as one)
+		seen := map[string]bool{}
+		for i := range ms {
+			for seen[ms[i].units+"\x00"+ms[i].def] {
+				ms[i].units += "x"
+			}
+			seen[ms[i].units+"\x00"+ms[i].def] = true
+		}
+		// a link between the member and the base, half of the time: the chain is what differs
+		for _, m := range ms {
+			inner := base
+			if r.Intn(2) == 0 {
+				fmt.Fprintf(&b, "  typedef %sb { type %s; }\n", m.name, base)
+				inner = m.name + "b"
+			}
+			fmt.Fprintf(&b, "  typedef %s {\n    type %s;\n", m.name, inner)
+			if m.units != "" {
+				fmt.Fprintf(&b, "    units %q;\n", m.units)
+			}
+			if m.def != "" {
+				fmt.Fprintf(&b, "    default %q;\n", m.def)
+			}
+			b.WriteString("  }\n")
+		}
+		union := "type union {"
+		for _, m := range ms {
+			union += " type " + m.name + ";"
+		}
+		union += " }"
+		fmt.Fprintf(&b, "  leaf l {\n    %s\n  }\n  typedef tu {\n    %s\n  }\n  leaf l2 {\n    type tu;\n  }\n  leaf-list l3 {\n    type zu:tu;\n  }\n", union, union)
+		wantErr := ""
+		if c%3 == 0 {
+			status := []string{"", "status current; ", "status deprecated; ", "status obsolete; "}[r.Intn(4)]
+			wantErr = fmt.Sprintf("gone%d", c)
+			td := fmt.Sprintf("typedef zzunused { %stype %s; }", status, wantErr)
+			if r.Intn(3) == 0 {
+				td = fmt.Sprintf("typedef zzunused { %stype zzring; } typedef zzring { %stype zzunused; }", status, status)
+				wantErr = "circular"
+			}
+			switch r.Intn(3) {
+			case 0:
+				fmt.Fprintf(&b, "  %s\n", td)
+			case 1:
+				fmt.Fprintf(&b, "  container box {\n    %s\n    leaf in { type string; }\n  }\n", td)
+			default:
+				fmt.Fprintf(&b, "  rpc op {\n    input {\n      %s\n      leaf arg { type string; }\n    }\n  }\n", td)
+			}
+			s.Count("union_sets_with_an_unused_faulty_typedef", 1)
+		}
+		b.WriteString("}\n")
+		text := b.String()
+		cs := map[string]string{"zu.yang": text}
+		s.Current(c, cs)
+		s.Count("union_sets", 1)
+		s.Count("nontrivial", 1)
+		bad := func(class, f string, a ...any) {
+			s.Violation(c, j.CaseID(c), "C09.unions", class, fmt.Sprintf(f, a...), cs, nil)
+		}
+		ml := yang.NewModules()
+		if err := ml.Parse(text, "zu.yang"); err != nil {
+			bad("generator", "%v", err)
+			continue
+		}
+		errs := ml.Process()
+		if c%7 == 0 {
+			errs = ml.Process() // a second run changes nothing
+		}
+		if wantErr != "" {
+			found := false
+			for _, e := range errs {
+				if strings.Contains(e.Error(), wantErr) {
+					found = true
+				}
+			}
+			if !found {
+				bad("unreported:unused-typedef", "the unused typedef's fault (%s) is not among the errors %v", wantErr, errs)
+			}
+			continue
+		}
+		if len(errs) > 0 {
+			bad("spurious-error", "%v", errs[0])
+			continue
+		}
+		e := yang.ToEntry(ml.Modules["zu"])
+		for _, ln := range []string{"l", "l2", "l3"} {
+			le := e.Dir[ln]
+			if le == nil || le.Type == nil {
+				bad("type-nil", "leaf %s has no type", ln)
+				continue
+			}
+			s.Count("union_leaves_checked", 1)
+			if le.Type.Kind != yang.Yunion {
+				bad("type-kind", "leaf %s: kind %v, want union", ln, le.Type.Kind)
+				continue
+			}
+			var got []string
+			for _, m := range le.Type.Type {
+				got = append(got, fmt.Sprintf("%s(%v units=%q default=%q/%v)", m.Name, m.Kind, m.Units, m.Default, m.HasDefault))
+			}
+			var want []string
+			for _, m := range ms {
+				want = append(want, fmt.Sprintf("%s(%s units=%q default=%q/%v)", m.name, base, m.units, m.def, m.def != ""))
+			}
+			if strings.Join(got, " ") != strings.Join(want, " ") {
+				bad("type-union-members", "leaf %s: members %v, written %v", ln, got, want)
+			}
+		}
+	}
+}
